@@ -40,7 +40,6 @@ func init() {
 	for _, e := range [][2]string{
 		{"node.(LambdaExpression).Call#range:f.parent", "each entry sets a distinct captured variable slot: the final state is the same for every order"},
 		{"runtime.bindTemplateVariables#range:props", "each entry sets the distinct template variable of the same name: order does not matter"},
-		{"runtime.(VM).findClassCaseInsensitive#range:vm.classMap", "first EqualFold match: ambiguous only if two registered class names differ by case alone, which AddClass callers never produce (class names are case-insensitive in the language)"},
 		{"runtime.(VM).RegisterReflectFunctions#range:functions", "host-side bulk registration; output only on a registration error"},
 		{"runtime.(TempVM).AddedClasses#range:vm.addedClasses", "host API returning a set; its only caller (hot reload) treats it as unordered"},
 		{"node.(FilesVariable).GetValue#range:httpReq.MultipartForm.File", "HTTP request data: the order is already lost in net/http's maps; not reachable from a sequential program without a server"},
@@ -75,7 +74,7 @@ func c20MapOrder(r *Run) {
 		rel := strings.TrimPrefix(strings.TrimPrefix(pkg.PkgPath, modPath), "/")
 		inScope := false
 		for _, sc := range []string{"lexer", "parser", "token", "node", "data", "runtime", "std/serializer/json", "std/php"} {
-			if rel == sc {
+			if rel == sc || (sc == "std/php" && strings.HasPrefix(rel, "std/php/")) {
 				inScope = true
 			}
 		}
@@ -116,6 +115,8 @@ func c20MapOrder(r *Run) {
 				switch verdict {
 				case "ok":
 					r.ok(key, rs.Pos(), why)
+				case "fold":
+					r.assume(key, rs.Pos(), "not armed: "+why+" — uniqueness up to case is the registry's invariant, not re-proved here")
 				default:
 					r.bad(key, rs.Pos(), why)
 				}
@@ -140,6 +141,7 @@ func classifyMapRange(pkg *packages.Package, fd *ast.FuncDecl, rs *ast.RangeStmt
 	appended := map[types.Object]token.Pos{} // slices appended to in the body
 	var problem string
 	var problemPos token.Pos
+	foldSelect := false
 	flag := func(p token.Pos, s string) {
 		if problem == "" {
 			problem, problemPos = s, p
@@ -188,7 +190,11 @@ func classifyMapRange(pkg *packages.Package, fd *ast.FuncDecl, rs *ast.RangeStmt
 						continue
 					}
 					if x.Tok != token.ASSIGN && x.Tok != token.DEFINE {
-						continue // += |= etc: commutative accumulation
+						// += |= etc: commutative accumulation — except string concatenation
+						if bt, ok := info.TypeOf(t).Underlying().(*types.Basic); ok && bt.Info()&types.IsString != 0 && x.Tok == token.ADD_ASSIGN {
+							flag(x.Pos(), fmt.Sprintf("concatenates onto %s once per map entry, in map order", t.Name))
+						}
+						continue
 					}
 					if i < len(x.Rhs) || len(x.Rhs) == 1 {
 						rhs := x.Rhs[0]
@@ -248,6 +254,17 @@ func classifyMapRange(pkg *packages.Package, fd *ast.FuncDecl, rs *ast.RangeStmt
 				checkStmt(x.Init)
 			}
 			checkExprCalls(x.Cond)
+			if c, ok := ast.Unparen(x.Cond).(*ast.CallExpr); ok && len(c.Args) == 2 && x.Else == nil {
+				if cal, ok := calleeOf(info, c).(*types.Func); ok && cal.Pkg() != nil && cal.Pkg().Path() == "strings" && cal.Name() == "EqualFold" {
+					if k := objOf(rs.Key); k != nil && (objOf(c.Args[0]) == k || objOf(c.Args[1]) == k) {
+						// the entry whose KEY equals the wanted name up to case: at most one entry when the
+						// keys are unique up to case, which is what a name registry of a case-insensitive
+						// language holds; the selection is then the same in every order
+						foldSelect = true
+						return
+					}
+				}
+			}
 			for _, b := range x.Body.List {
 				checkStmt(b)
 			}
@@ -302,6 +319,9 @@ func classifyMapRange(pkg *packages.Package, fd *ast.FuncDecl, rs *ast.RangeStmt
 	if problem != "" {
 		_ = problemPos
 		return "bad", problem
+	}
+	if foldSelect && len(appended) == 0 {
+		return "fold", "selects the entry whose key equals a name up to case (strings.EqualFold on the key): one entry at most while the registry's names are unique up to case"
 	}
 	// slices appended to must be sorted after the loop before any other use, or be only measured
 	for o := range appended {
